@@ -82,6 +82,7 @@ type simServer struct {
 	died       bool
 	startStep  int
 	endStep    int
+	retErr     error // what the process body returned (the in-process seam prints it to the process's stderr)
 }
 
 func newSimServer(sim *simrt.Sim, id int, sc serverScript) *simServer {
@@ -134,6 +135,7 @@ func (s *simServer) impl(ctx context.Context, _ []string, in io.ReadCloser, out,
 	s.startStep = s.sim.Steps()
 	s.sim.MixLog("server-start")
 	defer func() {
+		s.retErr = err
 		s.exited = true
 		s.exitedAt = s.sim.Elapsed()
 		s.endStep = s.sim.Steps()
